@@ -28,6 +28,7 @@ def run(prog, tier):
     helpers = collect_helpers(prog)
     check_dest_agree(R, prog, helpers)
     check_arg_role(R, prog, helpers)
+    check_helper_schema(R, prog, helpers)
     check_optional_object(R, prog, helpers)
     check_action_defaults(R, prog, helpers)
     R2 = Result(P, "")
@@ -399,3 +400,36 @@ def check_action_defaults(R, prog, helpers):
                                     "only when they are equal, so the short command line builds another formula than the documented one"
                                     % (a, src(br[a]), b, src(br[b])), br[b]))
     R.floor("ACTION-DEFAULT", n, 2)
+
+
+def check_helper_schema(R, prog, helpers):
+    """HELPER-SCHEMA: what each helper returns -- which library function, with which option in which argument, under which condition
+    on the parsed options -- equals, in the normal form of sa/schema.py, the reviewed table sa/props/_helper_specs.py."""
+    from ..schema import extract
+    from ._helper_specs import HELPER_SPECS
+    n = 0
+    for ci, setup, build in sorted(helpers, key=lambda h: h[0].name):
+        key = (ci.module.name, ci.name)
+        if key not in HELPER_SPECS:
+            R.bad(F("HELPER-SCHEMA", build, "%s has no entry in the helper table" % ci.name,
+                    "a command line helper without a reviewed `options -> library call` entry: review it and add it to _helper_specs.py"))
+            continue
+        got = {}
+        for e in extract(build, helper=True):
+            got.setdefault(e.key(), e)
+        want = set(HELPER_SPECS[key])
+        for k in sorted(want, key=str):
+            n += 1
+            q, g, b, a = k
+            line = "%s%s: %s(%s)" % (" ".join("for %s in %s" % (t, d) for t, d in q), (" if " + " and ".join(g)) if g else "", b, ", ".join(a))
+            if k in got:
+                R.ok("HELPER-SCHEMA", "%s: %s" % (ci.name, line.strip()[:110]), build.key)
+            else:
+                near = [e.text() for e in got.values() if e.builder == b]
+                R.bad(F("HELPER-SCHEMA", build, "%s no longer does: %s" % (ci.name, line.strip()[:90]),
+                        "the helper is documented / reviewed to do `%s`; it now does: %s" % (line.strip()[:300], (" | ".join(near))[:400] or "nothing comparable")))
+        for k, e in got.items():
+            if k not in want:
+                R.bad(F("HELPER-SCHEMA", build, "%s does something else: %s" % (ci.name, e.text()[:90]),
+                        "not in the reviewed table: %s" % e.text()[:400], e.node))
+    R.floor("HELPER-SCHEMA", n, 60)
